@@ -9,7 +9,7 @@ EXPLANATION = ("C10: wide_integer<D, Narrowest> operations are executed symbolic
                "real uintwide_t loops, unrolled path-wise: limb counts are concrete) and the result limbs are proved equal, "
                "limb by limb, to the same operation on the W-bit two's-complement integer assembled from the input limbs "
                "(bit-vector oracle for linear operations, integer (QF_NIA) oracle for multiplication / division).")
-BOUNDS = {"quick": "instantiations (digits, limb): (130,u8) 136 bit / 17 limbs, (130,u16) 144 bit / 9 limbs, (130,u32) 160 bit / 5 limbs, (130,u64) 192 bit / 3 limbs (with __int128 enabled, as in the test build, narrower wide_integers are single built-in integers), signed and unsigned; ops +,-,unary -,~,&,|,^,<<n,>>n (symbolic n in [0,W)), six comparisons, ++/--, conversion from/to 64-bit built-ins; multiplication for <= 4 limbs (INT encoding); decimal text, floating-point conversions and division beyond 2 limbs are outside",
+BOUNDS = {"quick": "4-limb multiplication of wide_integer<200, 64-bit limbs>; instantiations (digits, limb): (130,u8) 136 bit / 17 limbs, (130,u16) 144 bit / 9 limbs, (130,u32) 160 bit / 5 limbs, (130,u64) 192 bit / 3 limbs (with __int128 enabled, as in the test build, narrower wide_integers are single built-in integers), signed and unsigned; ops +,-,unary -,~,&,|,^,<<n,>>n (symbolic n in [0,W)), six comparisons, ++/--, conversion from/to 64-bit built-ins; multiplication for <= 4 limbs (INT encoding); decimal text, floating-point conversions and division beyond 2 limbs are outside",
           "thorough": "adds (200,u64) 256 bit and division for 2-3 limbs"}
 OPTS = {"quick": {"kernel_budget": 300}, "thorough": {"kernel_budget": 2400}}
 
@@ -218,7 +218,7 @@ def mk_conv(name, D, L, sgn, T, direction):
 opts_n = [160]
 
 
-def mk_mul(name, D, L, sgn, opn="mul", shape=None, mode="int"):
+def mk_mul(name, D, L, sgn, opn="mul", shape=None, mode="int", solver_timeout=None):
     """shape (division only): (significant limbs of the dividend, of the divisor) - restricts the operands to one
     size class so that the path-wise exploration of Knuth's algorithm D stays small"""
     n = limbs_of(D, L, sgn)
@@ -306,7 +306,7 @@ def mk_mul(name, D, L, sgn, opn="mul", shape=None, mode="int"):
                 seeds.append(mk(us, vs))
             return seeds
     k_ = Kernel(name, args, "i32", body, mode=mode, W=None if mode == "int" else (lw * (shape[0] + 1) + 8), pre=pre, claims=claims,
-                  unwind=6 * n + 24, max_paths=40000, timeout=240 if shape is None else 3,
+                  unwind=6 * n + 24, max_paths=40000, timeout=(solver_timeout or 240) if shape is None else 3,
                   guided_seeds=gs,
                   desc="wide_integer<%d,%s%s> %s (%d limbs)%s" % (D, "s" if sgn else "u", L[1:], o, n, (" operands with %d/%d significant limbs" % shape) if shape else ""),
                   tags={"op": opn, "D": D, "L": L, "sgn": sgn, "limbs": n})
@@ -403,6 +403,11 @@ def kernels(opts):
                     ks.append(mk_mul("K%d" % len(ks), D, L, sgn, "div", shape=(2, 2)))
                     ks.append(mk_mul("K%d" % len(ks), D, L, sgn, "rem", shape=(3, 2)))
                     ks.append(mk_mul("K%d" % len(ks), D, L, sgn, "div", shape=(3, 1)))
+    if tier == "quick":
+        # the 4-limb multiplication routine (its own specialisation in uintwide_t); the thorough tier runs the whole
+        # (200, u64) instantiation
+        for sgn in (False, True):
+            ks.append(mk_mul("K%d" % len(ks), 200, "u64", sgn, "mul", solver_timeout=50))
     # digit counts that are exact multiples of the limb width (the sign bit needs one more limb)
     for (N, opn) in ((("i16", "add"), ("i32", "add"), ("i32", "sub"), ("i64", "add"), ("i64", "sub")) if tier != "quick" else (("i32", "add"), ("i64", "sub"))):
         ks.append(mk_arith128("K%d" % len(ks), 128, N, opn))
